@@ -98,6 +98,9 @@ func flowTokens(fd *ast.FuncDecl, recv string, fields []string, calls []string) 
 			if sel, ok := v.Fun.(*ast.SelectorExpr); ok {
 				ast.Inspect(sel.X, visit)
 			}
+			if fl, ok := v.Fun.(*ast.FuncLit); ok { // an immediately applied function literal
+				ast.Inspect(fl, visit)
+			}
 			for _, c := range calls {
 				if s == c || strings.HasSuffix(s, "."+c) {
 					toks = append(toks, "call "+s)
